@@ -126,6 +126,13 @@ def case_same_array(r):
         else:
             i = r.randrange(ln)
             op = {"op": "move", "from": G.ptr(base + (str(i),)), "path": "/" + r.choice(["moved", "q", "x"]) if isinstance(doc, dict) else "/-"}
+        if r.random() < 0.06:
+            # an index past the end that looks small once narrowed to 32 or 64 bits: the operation must fail
+            big = str(r.choice([1 << 31, 1 << 32, 1 << 33, 1 << 63, 1 << 64]) * r.choice([1, 1, 2, 3]) + r.choice([0, 0, 1, ln, ln + 1]))
+            op = r.choice([{"op": "add", "path": G.ptr(base + (big,)), "value": 7},
+                           {"op": "copy", "from": G.ptr(base + (str(r.randrange(ln)),)) if ln else "", "path": G.ptr(base + (big,))},
+                           {"op": "move", "from": G.ptr(base + (str(r.randrange(ln)),)) if ln else "/b", "path": G.ptr(base + (big,))},
+                           {"op": "remove", "path": G.ptr(base + (big,))}, {"op": "replace", "path": G.ptr(base + (big,)), "value": 7}])
         ops.append(op)
         try:
             cur = R.apply_op(cur, copy.deepcopy(op))
@@ -194,7 +201,13 @@ def case_malformed(r):
             p = r.choice(aps)
             tgt.clear()
             tgt.update(r.choice([{"op": "add", "value": 1}, {"op": "remove"}, {"op": "test", "value": 1}, {"op": "replace", "value": 2}]))
-            tgt["path"] = G.ptr(p + (r.choice(["01", "00", "x", "", "-1", "+1", " 1", "1 ", "1x", "0x1", "2147483648", "99999999999"]),))
+            look = r.choice(["01", "00", "x", "", "-1", "+1", " 1", "1 ", "1x", "0x1", "2147483648", "99999999999"])
+            if r.random() < 0.5:
+                # indexes that only look small after narrowing to 32 or 64 bits
+                look = str(r.choice([1 << 31, 1 << 32, 1 << 33, 1 << 63, 1 << 64]) * r.choice([1, 1, 2, 3]) + r.choice([0, 0, 1, 2, 3]))
+                tgt.clear()
+                tgt.update(r.choice([{"op": "add", "value": 1}, {"op": "add", "value": [1]}, {"op": "copy", "from": ""}, {"op": "remove"}, {"op": "replace", "value": 2}]))
+            tgt["path"] = G.ptr(p + (look,))
     elif k == 10:   # unknown extra members are ignored
         tgt[r.choice(["xyz", "values", "opp", "pathx", "fromm"])] = r.choice([1, "/a"])
     else:
